@@ -82,6 +82,22 @@ def set_arg_of_call(callee_suffix, nth, arg, operand):
     return fn
 
 
+def copy_of_self_field_becomes_move():
+    """the first `copy _1.<field>` of a body becomes a `move` (a field of `self` is moved out)"""
+
+    def fn(j):
+        for bl in j["blocks"]:
+            for st in bl["s"]:
+                if st.get("k") == "assign" and st["rv"].get("k") == "use":
+                    op = st["rv"]["op"]
+                    if op.get("k") == "copy" and op["pl"].get("l") == 1 and op["pl"].get("p"):
+                        op["k"] = "move"
+                        return
+        raise ControlSkipped("no `copy _1.<field>` in %s" % j["id"])
+
+    return fn
+
+
 def swap_args_of_calls(callee_suffix):
     """swap the first operands of the first two calls to callee (e.g. the two lock() calls)"""
 
@@ -113,12 +129,15 @@ CONTROLS = {
         ("S2: scope predicate neutralised", [("nomt_core::proof::multi_proof::VerifiedMultiProof::confirm_value", neutralise_call("find_index_for"))], "S2|"),
     ],
     "C09": [
+        ("M1: the newest-end pop moved out of InMemory", [("nomt::rollback::InMemory::pop_recent", rename("nomt::rollback::pop_recent_free"))], "M1|"),
         ("guardfx: enough-logged comparison source neutralised", [("nomt::rollback::Rollback::truncate", neutralise_call("InMemory::total_len"))], "guardfx|rollback::Rollback::truncate|guard=enough_logged"),
     ],
     "C11": [
+        ("P1: status predicate behind the completeness guard neutralised", [("nomt::overlay::LiveOverlay::new::{closure#1}", neutralise_call("OverlayStatus::is_committed"))], "P1|"),
         ("guardfx: parent-marker check neutralised", [("nomt::overlay::Overlay::commit", neutralise_call("parent_matches_marker"))], "guard=parent_marker"),
     ],
     "C12": [
+        ("H1: a field of self is moved out before the hand-back", [("nomt::FinishedSession::try_commit_nonblocking", copy_of_self_field_becomes_move())], "H1|"),
         ("guardfx: previous-root comparison neutralised", [("nomt::FinishedSession::commit", neutralise_call("PartialEq::ne"))], "guard=root_eq"),
     ],
     "C14": [
